@@ -22,7 +22,9 @@ VARIANTS = [
     ("norm-upper", "C17", FK, "normalized_key: str = field.key.lower()", "normalized_key: str = field.key.upper()", "fire"),
     ("benign-norm-no-seen-set", "C17", FK, "            seen_normalized_keys.add(normalized_key)\n", "", "silent"),
     ("latex-string-tuple", "C18", LE, "            string.value, e = self._transform_python_value_string(string.value)\n            if e != \"\":\n                return MiddlewareErrorBlock(block=string, error=PartialMiddlewareException([e]))\n", "            string.value = self._transform_python_value_string(string.value)\n", "fire"),
-    ("latex-exception-escapes", "C18", LE, "        try:\n            return self._encoder.unicode_to_latex(python_string), \"\"\n        except Exception as e:\n            return python_string, str(e)", "        return self._encoder.unicode_to_latex(python_string), \"\"", "fire"),
+    ("latex-exception-escapes", "C18", LE, "        try:\n            return self._encoder.unicode_to_latex(python_string), \"\"\n        except Exception as e:\n            return python_string, str(e) or repr(e)", "        return self._encoder.unicode_to_latex(python_string), \"\"", "fire"),
+    ("revert-D21-latex-messageless-error-swallowed", "C18", LE, "            return self._decoder.latex_to_text(python_string), \"\"\n        except Exception as e:\n            return python_string, str(e) or repr(e)", "            return self._decoder.latex_to_text(python_string), \"\"\n        except Exception as e:\n            return python_string, str(e)", "fire"),
+    ("benign-latex-error-text-fallback-name", "C18", LE, "            return self._decoder.latex_to_text(python_string), \"\"\n        except Exception as e:\n            return python_string, str(e) or repr(e)", "            return self._decoder.latex_to_text(python_string), \"\"\n        except Exception as e:\n            return python_string, str(e) or (type(e).__name__ + '()')", "silent"),
     ("latex-errors-swallowed", "C18", LE, "        if len(errors) > 0:\n            errors = PartialMiddlewareException(errors)\n            return MiddlewareErrorBlock(block=entry, error=errors)\n        else:\n            return entry", "        return entry", "fire"),
     ("latex-keys-transformed", "C18", LE, "                field.value, e = self._transform_python_value_string(field.value)\n                errors.append(e)", "                field.value, e = self._transform_python_value_string(field.value)\n                field.key, _ = self._transform_python_value_string(field.key)\n                errors.append(e)", "fire"),
     ("latex-von-lost", "C18", LE, "                field.value.von = self._transform_all_strings(field.value.von, errors)", "                field.value.von = self._transform_all_strings(field.value.last, errors)", "fire"),
